@@ -735,14 +735,18 @@ def pieces_supported(prog) -> bool:
 
 
 def drop_inlines(prog):
-    """The program with every inlined model replaced by a plain operator (None if it has none)."""
+    """The program with every inlined LEGACY model (hand-written, old opset) replaced by an inlined model built
+    by spox from the newest module the program uses — same structure (an inlined model feeding the same
+    consumers), nothing to convert. None if the program inlines no legacy model."""
     p = copy.deepcopy(prog)
+    vs = [st.get("mv") for st, *_ in L.walk(p["nodes"]) if "mv" in st] + [17]
+    mv = max(v for v in vs if v)
     n = 0
     for st, *_ in L.walk(p["nodes"]):
-        if st["op"] == "inline":
+        if st["op"] == "inline" and st["model"].get("kind") in ("oldx", "old"):
             n += 1
-            st.pop("model")
-            st.update(op="neg", mv=17)
+            st["model"] = {"kind": "spox", "mv": mv,
+                           "prog": {"nodes": [{"id": "v9000", "op": "neg", "mv": mv, "args": ["x"]}], "out": "v9000"}}
     return p if n else None
 
 
